@@ -18,12 +18,19 @@
    (C02_hull_label_pos), so any positively oriented polygon meeting the specification is a rotation
    of the kernel's (C02_hull_label_unique).  A negatively oriented one is the reverse of such a
    polygon; that variant is not stated.
-   (stack_nodup is refuted: C02_stack_nodup_refuted.) *)
+   (stack_nodup is refuted: C02_stack_nodup_refuted.)
+   F22 (known finding): all theorems above are about the exact-integer model Model/Hull.v.  The kernel
+   computes the cross product (and max_i + 1) in C int; Model/HullW.v is the model as written
+   (wrap32).  C02_wrap_transfer: for coordinates in [0, M], M*M < 2^31 (M <= 46340, sharp) the
+   as-written per-label kernel equals the exact one, so it is correct there (C02_hull_label_w_correct);
+   C02_convex_wrap_refuted: above the bound it loses an extreme point.  The batch-level equality of the
+   two models inside the bound is not proved (it needs the walk invariant again); it is tested on every
+   run (the correspondence model for convex_hull_ijv IS the as-written one). *)
 From Coq Require Import ZArith List Bool Permutation.
-From Centro Require Import Base.Sx Model.Hull Spec.HullSpec
+From Centro Require Import Base.Sx Model.Hull Model.HullW Spec.HullSpec
   Proofs.HullEmit Proofs.HullGeom Proofs.HullPerm Proofs.HullBatch Proofs.HullTop
   Proofs.HullOutline Proofs.HullUnique Proofs.HullBelow Proofs.HullAbove Proofs.HullCorrect
-  Proofs.HullImage Proofs.HullWrites Proofs.HullGuard Proofs.HullStrict Proofs.HullPoly Proofs.HullRotation Proofs.HullSweep Proofs.HullSweep44 Proofs.HullSweep34 Proofs.HullSweep53.
+  Proofs.HullImage Proofs.HullWrites Proofs.HullGuard Proofs.HullStrict Proofs.HullPoly Proofs.HullRotation Proofs.HullWrap Proofs.HullSweep Proofs.HullSweep44 Proofs.HullSweep34 Proofs.HullSweep53.
 Import ListNotations.
 Open Scope Z_scope.
 
@@ -249,6 +256,43 @@ Theorem C02_hull_label_unique : forall m pts slack V', label_ok m pts -> 0 <= sl
   exists k, V' = skipn k (hull_label m pts slack) ++ firstn k (hull_label m pts slack).
 Proof. exact hull_label_unique. Qed.
 Print Assumptions C02_hull_label_unique.
+
+(* ---- F22: C int arithmetic *)
+Theorem C02_wrap32_id : forall z, -2147483648 <= z < 2147483648 -> wrap32 z = z.
+Proof. exact wrap32_id. Qed.
+Print Assumptions C02_wrap32_id.
+
+(* sharp: the as-written turn test is exact whenever twice the triangle's area fits the int32 range ... *)
+Theorem C02_CONVEXw_exact : forall a b c : pt, -2147483648 <= cross a b c < 2147483648 -> CONVEXw a b c = CONVEX a b c.
+Proof. exact CONVEXw_exact. Qed.
+Print Assumptions C02_CONVEXw_exact.
+
+(* ... which holds for coordinates in [0, M] with M*M < 2^31, since |cross| <= M*M *)
+Theorem C02_cross_bound : forall (M : Z) (a b c : pt),
+  0 <= fst a <= M -> 0 <= snd a <= M -> 0 <= fst b <= M -> 0 <= snd b <= M -> 0 <= fst c <= M -> 0 <= snd c <= M ->
+  - (M * M) <= cross a b c <= M * M.
+Proof. exact cross_bound. Qed.
+Print Assumptions C02_cross_bound.
+
+(* the per-label kernel as written equals the exact one inside the bound: every theorem transfers *)
+Theorem C02_wrap_transfer : forall M m pts slack, M * M < 2147483648 ->
+  (forall q, In q pts -> inbox M q) -> hull_label_w m pts slack = hull_label m pts slack.
+Proof. exact hull_label_w_exact. Qed.
+Print Assumptions C02_wrap_transfer.
+
+Theorem C02_hull_label_w_correct : forall M m pts slack, M * M < 2147483648 -> (forall q, In q pts -> inbox M q) ->
+  label_ok m pts -> 0 <= slack -> HullSpec pts (hull_label_w m pts slack).
+Proof. exact hull_label_w_correct. Qed.
+Print Assumptions C02_hull_label_w_correct.
+
+(* beyond the bound the kernel as written violates the property (F22) *)
+Theorem C02_convex_wrap_refuted : exists m pts,
+  label_ok m pts /\ (forall q, In q pts -> 0 <= fst q < 2147483648 /\ 0 <= snd q <= 2) /\
+  hull_label m pts 0 = [(2147483646, 0); (0, 1); (2147483646, 2)] /\
+  hull_label_w m pts 0 = [(2147483646, 0); (2147483646, 2); (5, 1)] /\
+  hull_ok pts (hull_label_w m pts 0) = false /\ CONVEXw (2147483646, 0) (0, 1) (2147483646, 2) = false.
+Proof. exact convex_wrap_refuted. Qed.
+Print Assumptions C02_convex_wrap_refuted.
 
 (* the outline pre-filter only drops pixels that are no vertex of the hull of the full set *)
 Theorem C02_outline_keeps_extreme : forall S V v, HullSpec S V -> In v V ->
